@@ -88,7 +88,7 @@ type Server struct {
 	serverID             string
 	serviceName          string
 	protocolVersion      string // canonical semver MAJOR.MINOR.PATCH, or "" when opted out
-	protocolVersionParts [3]int // parsed (major, minor, patch); used when protocolVersion != ""
+	protocolVersionParts [3]string // (major, minor, patch) as decimal strings; used when protocolVersion != ""
 	protocolVersionSet   bool   // true when SetProtocolVersion was called with a non-empty value
 	protocolHash         string
 	protocolHashOnce     sync.Once
@@ -276,15 +276,15 @@ func (s *Server) SetProtocolVersion(v string) {
 	if v == "" {
 		s.protocolVersion = ""
 		s.protocolVersionSet = false
-		s.protocolVersionParts = [3]int{}
+		s.protocolVersionParts = [3]string{}
 		return
 	}
-	major, minor, patch, err := parseSemver(v)
+	major, minor, patch, err := semverFields(v)
 	if err != nil {
 		panic(err)
 	}
 	s.protocolVersion = v
-	s.protocolVersionParts = [3]int{major, minor, patch}
+	s.protocolVersionParts = [3]string{major, minor, patch}
 	s.protocolVersionSet = true
 }
 
@@ -312,7 +312,7 @@ func (s *Server) checkProtocolVersion(clientVersion string, present bool) *Proto
 				"non-VGI client connecting to a VGI worker.",
 		}
 	}
-	major, minor, _, err := parseSemver(clientVersion)
+	major, minor, _, err := semverFields(clientVersion)
 	if err != nil {
 		return &ProtocolVersionError{
 			Message: "VGI client/worker protocol_version mismatch.\n" +
@@ -323,11 +323,12 @@ func (s *Server) checkProtocolVersion(clientVersion string, present bool) *Proto
 		}
 	}
 	serverMajor, serverMinor := s.protocolVersionParts[0], s.protocolVersionParts[1]
-	if major == serverMajor && minor == serverMinor {
+	cmpMajor, cmpMinor := compareDecimal(major, serverMajor), compareDecimal(minor, serverMinor)
+	if cmpMajor == 0 && cmpMinor == 0 {
 		return nil
 	}
 	var direction string
-	if major < serverMajor || (major == serverMajor && minor < serverMinor) {
+	if cmpMajor < 0 || (cmpMajor == 0 && cmpMinor < 0) {
 		direction = "client is too old; upgrade the VGI extension/client to a " +
 			"version supporting protocol_version " + s.protocolVersion + "."
 	} else {
